@@ -4,6 +4,13 @@ import z3
 from .values import Namer
 
 
+# one solver query may not take the machine down: z3 gives up (unknown) beyond this many MB
+try:
+    z3.set_param("memory_max_size", 6000)
+except Exception:      # pragma: no cover
+    pass
+
+
 def guarded_check(solver, timeout_ms):
     """solver.check() with a hard wall-clock guard: z3's own timeout is not always honoured
     by the sequence solver, so a watchdog interrupts the context"""
